@@ -154,13 +154,19 @@ def F_owner(ctx, server):
             if t["k"] != "switch" or t["d"]["k"] not in ("copy", "move"):
                 continue
             e = d.expr_operand(t["d"])
-            if e[0] == "discr" and e[1][0] == "call" and flow.last(e[1][2]) == "map" and e[1][3] and e[1][3][0][0] == "upvar" and roles.get(e[1][3][0][1]) == "IDENTITY":
+            # the Option<Identity> parameter itself or through map / as_ref / clone ... (match on identity.map(|id| id.id()), `let Some(id) = identity else`, if let ...)
+            x = e[1] if e[0] == "discr" else None
+            while x is not None and x[0] == "call" and flow.last(x[2]) in ("map", "as_ref", "as_mut", "clone", "take", "as_deref") and x[3]:
+                x = x[3][0]
+            while x is not None and x[0] in ("ref", "deref", "copy", "move") and len(x) > 1 and isinstance(x[1], tuple):
+                x = x[1]
+            if x is not None and x[0] == "upvar" and roles.get(x[1]) == "IDENTITY":
                 found = True
                 none_t = [x[1] for x in t["targets"] if x[0] == "0"]
                 reach = cor.reach_avoiding(none_t, set())
                 ctx.ob(rule, hn + ".unauthenticated-no-query", not (reach & coll_blocks), where=cor.where(t.get("loc")), expected="identity = None returns before any query",
                        found="reaches %d query blocks" % len(reach & coll_blocks))
-        ctx.ob(rule, hn + ".identity-match", found, where=cor.where(), expected="match on identity.map(|id| id.id())", found=found, kind="cannot-establish")
+        ctx.ob(rule, hn + ".identity-match", found, where=cor.where(), expected="a branch on the Option<Identity> parameter (match / if let / let-else)", found=found, kind="cannot-establish")
 
 
 def F_cred(ctx, server):
